@@ -1550,11 +1550,22 @@ class Interp(object):
         """summarise a method by assigning fresh symbols to every attribute it stores"""
         o = f.self_obj
         written = []
-        for n in ast.walk(f.node):
-            if isinstance(n, ast.Attribute) and isinstance(n.ctx, ast.Store) and isinstance(n.value, ast.Name) \
-                    and n.value.id == 'self':
-                if n.attr not in written:
-                    written.append(n.attr)
+        # the method and every method of the object it reaches through self.<method>() calls (helpers it is split into)
+        nodes = [f.node]
+        seen = {getattr(f.node, 'name', None)}
+        cls = getattr(o, 'cls', None)
+        i = 0
+        while i < len(nodes):
+            for n in ast.walk(nodes[i]):
+                if isinstance(n, ast.Attribute) and isinstance(n.ctx, ast.Store) and isinstance(n.value, ast.Name) \
+                        and n.value.id == 'self':
+                    if n.attr not in written:
+                        written.append(n.attr)
+                elif isinstance(n, ast.Call) and isinstance(n.func, ast.Attribute) and isinstance(n.func.value, ast.Name) \
+                        and n.func.value.id == 'self' and cls is not None and n.func.attr in cls.methods and n.func.attr not in seen:
+                    seen.add(n.func.attr)
+                    nodes.append(cls.methods[n.func.attr].node)
+            i += 1
         for w in written:
             keep = self.opts.get('havoc_keep', ())
             if w in keep:
